@@ -307,6 +307,13 @@ func c19Apply(c *message.IKEPayloadContainer, in c19In, cp func(b model.Bytes) [
 				mayError = true
 				labels = append(labels, "delete:count!=len(spis)")
 			}
+			if !in.Bool1 && in.U8c%4 == 3 {
+				// SPI size 0 (as for the IKE SA itself) with a count that says otherwise: an argument like any other - the payload
+				// holds what it was given (and cannot be encoded)
+				count = 1 + uint16(in.U8b%3)
+				mayError = true
+				labels = append(labels, "delete:size0-count>0")
+			}
 			c.BuildDeletePayload(in.U8a, size, count, append([]uint32(nil), in.U32s...))
 			want = &model.Payload{Kind: model.KDelete, Delete: &model.Delete{Protocol: in.U8a, SPISize: size, Count: count, SPIs: in.U32s}}
 		case "EAP":
